@@ -4,7 +4,9 @@ import RedisVerif.Model.WalActor
 
 /-
   C09 sub-driver.  One line = one workload:
-    G | GP <policy a|e|n>  (G = Always)
+    G | GP <policy a|e|n> | GT <group_commit_max_wait in µs>  (G = Always; GT = Always with the callers'
+      5 s ack timeout on the virtual clock: a caller whose ack is only sent when the group-commit wait runs
+      out is told an fsync-class error (`WAL write timed out`) when that wait is longer than 5 s)
       <fix 0|1> <tickSyncs 0|1> <format 1|2> <reuseSeq 0|1> <maxSize> <maxEntries> K <nincarnations>
       { F <nf> {<callIndex> <ok|fail|full|torn:K>}* D <deadFrom|->
         W <ngroups> {<nmsgs> {w <id> <ts> <hex> | f <id> <ts> <hex> | t | x <T>}*}*
@@ -67,6 +69,8 @@ structure Workload where
   cancelled : List Nat := []
   /-- `GQ`: the acks are not observable (production path: `ReplicatedShardedState::execute` only logs them) -/
   noAcks : Bool := false
+  /-- `GT`: `group_commit_max_wait` in µs; the callers' view goes through `seenAfter` -/
+  waitUs : Option Nat := none
   fix : Bool
   tick : Bool
   fmt : Format
@@ -118,7 +122,8 @@ def cancelledIds : List String → List Nat
 
 def workloadP : P Workload := do
   let g ← tok
-  let pol ← (if g == "G" then pure Policy.always else if g == "GP" || g == "GQ" then policyP else failure : P Policy)
+  let wait ← (if g == "GT" then (do let w ← nat; pure (some w)) else pure none : P (Option Nat))
+  let pol ← (if g == "G" || g == "GT" then pure Policy.always else if g == "GP" || g == "GQ" then policyP else failure : P Policy)
   let f ← nat
   let tk ← nat
   let v ← nat
@@ -128,7 +133,7 @@ def workloadP : P Workload := do
   expect "K"
   let k ← nat
   let incs ← repeatP k incP
-  pure { policy := pol, noAcks := g == "GQ", fix := f != 0, tick := tk != 0, fmt := if v = 1 then .v1 else .v2, reuse := ru != 0,
+  pure { policy := pol, noAcks := g == "GQ", waitUs := wait, fix := f != 0, tick := tk != 0, fmt := if v = 1 then .v1 else .v2, reuse := ru != 0,
          maxSize := ms, maxEntries := me, incs := incs }
 
 def oracleOf (fs : List (Nat × Outcome)) (dead : Option Nat) (i : Nat) : Outcome :=
@@ -165,20 +170,20 @@ def schedNow (pol : Policy) (wl : Workload) (φ : Nat → Outcome) (s : Sched) (
   | .noop => s
   | .ev e => { s with a := Actor.stepP pol φ wl.fmt crc s.a e }
 
-def runInc (wl : Workload) (st : Actor × List Nat) (inc : Inc) : Actor × List Nat :=
+def runInc (wl : Workload) (st : Actor × List Nat × List Nat) (inc : Inc) : Actor × List Nat × List Nat :=
   let φ := oracleOf inc.faults inc.dead
-  let (a, dropped0) := st
+  let (a, dropped0, late0) := st
   match wl.policy with
   | .always =>
     let evsOf := fun (g : List Msg) => g.filterMap (fun m => match m with | .ev e => some e | _ => none)
-    let s1 : Sched :=
-      if wl.fix && !wl.tick then Sched.runBursts wl.maxEntries φ wl.fmt crc { a := a } inc.groups
-      else { a := inc.groups.foldl (fun a g => Actor.runGroup wl.fix wl.tick φ wl.fmt crc wl.maxEntries a (evsOf g)) a }
+    let (s1, late) : Sched × List Nat :=
+      if wl.fix && !wl.tick then Sched.runBurstsLate wl.maxEntries φ wl.fmt crc { a := a } inc.groups
+      else ({ a := inc.groups.foldl (fun a g => Actor.runGroup wl.fix wl.tick φ wl.fmt crc wl.maxEntries a (evsOf g)) a }, [])
     let a1 := s1.a
     (match inc.ending with
     | "c" => Actor.step wl.fix wl.tick φ wl.fmt crc a1 (.reopen true wl.reuse)
     | "s" => Actor.step wl.fix wl.tick φ wl.fmt crc a1 (.reopen false wl.reuse)
-    | _ => a1, dropped0 ++ s1.dropped)
+    | _ => a1, dropped0 ++ s1.dropped, late0 ++ late)
   | pol =>
     -- EverySecond / No: one message after the other, no group commit; the harness ends the last
     -- incarnation with `shutdown()` (EverySecond: one more sync if anything is unsynced)
@@ -188,7 +193,7 @@ def runInc (wl : Workload) (st : Actor × List Nat) (inc : Inc) : Actor × List 
     | "c" => Actor.stepP pol φ wl.fmt crc a1 (.reopen true wl.reuse)
     | "s" => if s1.alive then Actor.stepP pol φ wl.fmt crc a1 (.reopen false wl.reuse)
              else Actor.stepP .no φ wl.fmt crc a1 (.reopen false wl.reuse)
-    | _ => if pol = .everySecond && s1.alive then Actor.tickEverySec φ a1 else a1, dropped0 ++ s1.dropped)
+    | _ => if pol = .everySecond && s1.alive then Actor.tickEverySec φ a1 else a1, dropped0 ++ s1.dropped, late0)
 
 def showPolicy : Policy → String
   | .always => "a" | .everySecond => "e" | .no => "n"
@@ -215,14 +220,25 @@ def step (line : String) : String :=
   | none => "bad-op"
   | some wl0 =>
     let wl := { wl0 with cancelled := cancelledIds (tokens line) }
-    let (a, dropped) := wl.incs.foldl (runInc wl) (Actor.init wl.maxSize, [])
+    let (a, dropped, late) := wl.incs.foldl (runInc wl) (Actor.init wl.maxSize, [], [])
     let ws := (wl.incs.flatMap (fun i => i.groups.flatten)).filterMap
       (fun m => match m with | .ev (.write w) => some w | .ev (.forget w) => some w | _ => none)
     -- callers whose message was never handled (the actor had stopped): an I/O error, no entry
     let droppedAcks : List AckRec := (dropped.filter (fun i => !wl.cancelled.contains i)).map
       (fun i => ⟨i, ⟨[], 0, 0⟩, .err .io, 0⟩)
     let acks := ((a.acks.filter (fun x => !wl.cancelled.contains x.id)) ++ droppedAcks).foldl (fun acc x => insertAck x acc) []
-    let acksS := if wl.noAcks then "-" else " ".intercalate (acks.map (fun x => s!"{x.id}={showAck x.res}"))
+    -- what the CALLER is told: a late ack (sent when the group-commit wait runs out) competes with the
+    -- caller's 5 s deadline (`seenAfter`, Model/WalActor.lean)
+    let seen := fun (x : AckRec) =>
+      match wl.waitUs with
+      | some w => if late.contains x.id then
+          (match seenAfter w x.res with
+          | some (.ack r) => showAck r
+          | some .timedOut => "fsync"   -- `FsyncFailed("WAL write timed out")`: the error CLASS is compared
+          | _ => "?")
+        else showAck x.res
+      | none => showAck x.res
+    let acksS := if wl.noAcks then "-" else " ".intercalate (acks.map (fun x => s!"{x.id}={seen x}"))
     let traceS := " ".intercalate (a.rot.w.trace.reverse.map showCall)
     let crashS := " ; ".intercalate (a.rot.w.hist.reverse.map (fun st =>
       " ".intercalate ((durable wl.fmt crc st).map (idOf ws))))
